@@ -391,7 +391,7 @@ int main(int argc, char** argv) {
   const char* outdir = ".";
   const char* replay = 0;
   const char* name = "harness";
-  int verbose = 0, pmin = 0;
+  int verbose = 0, pmin = 0, discover = 0, envall = 0;
   for (int i = 1; i < argc; i++) {
     char* a = argv[i];
     if (!strncmp(a, "-P", 2)) P = atoi(a + 2);
@@ -411,6 +411,8 @@ int main(int argc, char** argv) {
     else if (!strncmp(a, "-horizon", 8)) fmc_horizon = atol(a + 8);
     else if (!strncmp(a, "-ctimeout", 9)) child_timeout = atoi(a + 9);
     else if (!strcmp(a, "-nofilter")) fmc_use_site_filter = 0;
+    else if (!strcmp(a, "-discover")) discover = 1;
+    else if (!strcmp(a, "-envall")) envall = 1;
     else if (!strcmp(a, "-stop")) stop_on_fail = 1;
     else if (!strncmp(a, "-json=", 6)) json = a + 6;
     else if (!strncmp(a, "-out=", 5)) outdir = a + 5;
@@ -426,6 +428,7 @@ int main(int argc, char** argv) {
   fmc_arena_setup();
   SH = mmap(0, sizeof(shared_t), PROT_READ | PROT_WRITE, MAP_SHARED | MAP_ANONYMOUS, -1, 0);
   slots = mmap(0, sizeof(wslot_t) * (size_t)W, PROT_READ | PROT_WRITE, MAP_SHARED | MAP_ANONYMOUS | MAP_NORESERVE, -1, 0);
+  SH->envall = envall;
   if (replay) return do_replay(replay, verbose);
 
   start_workers();
@@ -437,6 +440,21 @@ int main(int argc, char** argv) {
   int passes = 0, completedP = -1, closed = 0, complete = 0;
   int engine_error = 0;
   memset(last, 0, sizeof *last);
+  // discovery pass: one pre-emption anywhere (every instrumented access a choice point) to
+  // seed the conflict-closed site set cheaply; its executions are real and are counted
+  if (discover && targetP >= 1) {
+    P = 1;
+    SH->nofilter = 1;
+    long savecap = cap;
+    cap = 20000;
+    run_pass(ps);
+    cap = savecap;
+    SH->nofilter = 0;
+    passes++;
+    tot_execs += ps->execs; tot_states += ps->states; tot_steps += ps->steps; tot_nontrivial += ps->nontrivial;
+    fprintf(stderr, "fmc[%s] discovery pass (P=1, all accesses): execs=%ld failing=%ld new_sites=%d t=%.1fs\n", name, ps->execs, total_failing, SH->new_sites, now_s());
+    memcpy(SH->site_shared, SH->site_next, NSITES);
+  }
   for (int p = (pmin < targetP ? pmin : targetP); p <= targetP && !engine_error; p++) {
     P = p;
     for (int rep = 0; rep < 8; rep++) {
